@@ -251,16 +251,26 @@ def DB.rollback (fixed : Bool) (d : DB) (h : HRef HT) : Except Err DB :=
   | .ok s => .ok ⟨s, d.dur⟩
   | .error e => .error e
 
-/-- `_exec_job_main_thread` from the cache miss to the moment the task function is entered.
+/-- `_perform_rollbacks`: `rollback_handle` on EVERY Handle-valued leaf of the (preprocessed) arguments, one call per
+argument state — two states of one handle name are two calls -/
+def DB.rollbackAll (fixed : Bool) : DB → List (HRef HT) → Except Err DB
+  | d, [] => .ok d
+  | d, h :: hs =>
+    match d.rollback fixed h with
+    | .ok d' => DB.rollbackAll fixed d' hs
+    | .error e => .error e
+
+/-- `_exec_job_main_thread` from the cache miss to the moment the task function is entered; `fs` are the handle
+states among the job's arguments.
 `early = true` is the code's order: `_perform_rollbacks`, (limits), `record_job_start` — which commits —, submit.
 `early = false` is the other order (`record_job_start` first, `_perform_rollbacks` right before the submit): the
-task then starts with the rollback still pending. -/
-def enterTask (fixed early : Bool) (d : DB) (f : HRef HT) : Except Err DB :=
+task then starts with the rollbacks still pending. -/
+def enterTask (fixed early : Bool) (d : DB) (fs : List (HRef HT)) : Except Err DB :=
   if early then
-    match d.rollback fixed f with
+    match d.rollbackAll fixed fs with
     | .ok d' => .ok d'.commit
     | .error e => .error e
-  else d.commit.rollback fixed f
+  else d.commit.rollbackAll fixed fs
 
 /-- The job of `runTask`, but the process dies right after the task function was entered and made its first write
 to the external system (`ext`).  Returns what the next process finds, and whether the task had started (on a
@@ -271,7 +281,7 @@ def crashTask (fixed early : Bool) (k : String) (w : WSt) (depth : Nat) (t : Str
   let r := HT.call f t
   if (t, f) ∈ w.cache ∧ d1.ses.isValid r = true then .ok ({ w with st := d1.dur }, false)
   else
-    match enterTask fixed early d1 f.ref with
+    match enterTask fixed early d1 [f.ref] with
     | .error e => .error e
     | .ok d2 => .ok ({ st := d2.crash.dur, cache := w.cache, ext := w.ext.take depth ++ [t] }, true)
 
